@@ -16,56 +16,103 @@ VARLIKE = {'VARIABLE', 'EXOGENOUS', 'ENDOGENOUS'}
 
 
 def r1_tagging(R) -> None:
+    from fsa.match import atoms_equal
+    from fsa.flow import PARAM
     q = f'{P}.parse_equation_terms'
     f = Fn(R, q)
+    src = (f.fi.params() + ['equation'])[0]
     # left, right = equation.split('=', maxsplit=1)
     split = None
     for n in f.cfg.nodes:
         a = n.ast
-        if n.kind == 'stmt' and isinstance(a, ast.Assign) and isinstance(a.targets[0], ast.Tuple) and method_call(a.value, 'split'):
+        if n.kind == 'stmt' and isinstance(a, ast.Assign) and isinstance(a.targets[0], ast.Tuple) and method_call(a.value, 'split', 'rsplit', 'partition', 'rpartition'):
             split = (n, a)
     if split is None:
         R.require(q, 0, "left, right = equation.split('=', maxsplit=1)", fi=f.fi, pred=lambda x: method_call(x, 'split', 'partition'))
         return
     n, a = split
     c = a.value
-    mx = kwarg(c, 'maxsplit') or (c.args[1] if len(c.args) > 1 else None)
-    ok = text(c.func.value) == 'equation' and c.args and is_const(c.args[0], '=') and mx is not None and is_const(mx, 1) \
-        and len(a.targets[0].elts) == 2
-    R.check(ok, q, 'split:' + text(c), 'the statement is split at the first `=`', f'`{text(a)}` does not split `equation` at the first `=`', where=f.where(n))
-    left, right = [text(e) for e in a.targets[0].elts] if len(a.targets[0].elts) == 2 else ('?', '?')
-    want = {'lhs_terms': (left, 'ENDOGENOUS'), 'rhs_terms': (right, 'EXOGENOUS')}
-    seen = 0
-    for m in f.cfg.nodes:
-        b = m.ast
-        if m.kind == 'stmt' and isinstance(b, ast.Assign) and isinstance(b.value, ast.ListComp) and len(b.targets) == 1:
-            lc = b.value
-            if is_call(lc.elt, 'replace_type') and len(lc.elt.args) == 2 and is_call(lc.generators[0].iter, 'parse_terms'):
-                seen += 1
-                side = text(lc.generators[0].iter.args[0])
-                tag = text(lc.elt.args[1]).split('.')[-1]
-                tgt = text(b.targets[0])
-                if tgt in want:
-                    ws, wt = want[tgt]
-                    R.check(side == ws and tag == wt, q, f'tag:{tgt}:{side}:{tag}',
-                            f'{tgt}: terms of the {"left" if wt == "ENDOGENOUS" else "right"}-hand side are tagged {wt}',
-                            f'`{text(b)[:80]}`: {tgt} takes terms of `{side}` tagged {tag}, expected `{ws}` tagged {wt}', where=f.where(m))
-                else:
-                    R.check((side, tag) in ((left, 'ENDOGENOUS'), (right, 'EXOGENOUS')), q, f'tag:{side}:{tag}',
-                            'left-hand terms are ENDOGENOUS, right-hand terms EXOGENOUS',
-                            f'terms of `{side}` are tagged {tag}', where=f.where(m))
-    R.require(q, seen, 'replace_type(t, Type.X) for t in parse_terms(side) for both sides', fi=f.fi, minimum=2,
-              pred=lambda x: is_call(x, 'replace_type'))
-    # replace_type retags only VARIABLE
-    rt = R.repo.func(q + '.<locals>.replace_type')
-    ifs = [x for x in ast.walk(rt.node) if isinstance(x, ast.If)]
-    ok = len(ifs) == 1 and text(ifs[0].test) in ('term.type == Type.VARIABLE', 'Type.VARIABLE == term.type') and not ifs[0].orelse
-    R.check(ok, rt.qualname, 'retag-only-variable', 'only VARIABLE-typed terms are retagged (parameters/errors/functions keep their type)',
-            'replace_type does not restrict retagging to Type.VARIABLE', where=rt.where)
-    # return order lhs + rhs
+    elts = a.targets[0].elts
+    if c.func.attr == 'partition':
+        ok = text(c.func.value) == src and len(c.args) == 1 and is_const(c.args[0], '=') and len(elts) == 3
+        left, right = (text(elts[0]), text(elts[2])) if len(elts) == 3 else ('?', '?')
+    else:
+        mx = kwarg(c, 'maxsplit') or (c.args[1] if len(c.args) > 1 else None)
+        ok = c.func.attr == 'split' and text(c.func.value) == src and c.args and is_const(c.args[0], '=') and mx is not None and is_const(mx, 1) and len(elts) == 2
+        left, right = [text(e) for e in elts] if len(elts) == 2 else ('?', '?')
+    R.check(ok, q, 'split:' + text(c), 'the statement is split at the first `=`', f'`{text(a)}` does not split `{src}` at the first `=`', where=f.where(n))
+    # the returned list: left-hand terms, then right-hand terms
     rets = f.returns()
-    R.check(len(rets) == 1 and text(rets[0].ast.value) == 'lhs_terms + rhs_terms', q, 'return-order', 'terms are returned left-hand side first',
-            'parse_equation_terms does not return `lhs_terms + rhs_terms`', where=f.fi.where)
+    if len(rets) != 1 or rets[0].ast.value is None:
+        raise Unsupported(f'{q}: expected one return of the term list')
+    rv = rets[0].ast.value
+    parts: List[ast.AST] = []
+    if isinstance(rv, ast.BinOp) and isinstance(rv.op, ast.Add):
+        parts = [rv.left, rv.right]
+    elif isinstance(rv, ast.List) and len(rv.elts) == 2 and all(isinstance(e, ast.Starred) for e in rv.elts):
+        parts = [e.value for e in rv.elts]
+    elif is_call(rv, 'list') and len(rv.args) == 1 and is_call(rv.args[0], 'itertools.chain', 'chain') and len(rv.args[0].args) == 2:
+        parts = list(rv.args[0].args)
+    if len(parts) != 2:
+        raise Unsupported(f'{q}: return `{text(rv)[:60]}` is not the concatenation of two term lists')
+    sides = []
+    for part in parts:
+        site = rets[0].id
+        e = part
+        if isinstance(part, ast.Name):
+            vals = f.lf.values_reaching(rets[0].id, part.id)
+            if len(vals) != 1 or vals[0][0] == PARAM or vals[0][1] is None:
+                raise Unsupported(f'{q}: `{part.id}` has {len(vals)} definitions at the return')
+            site, e = vals[0]
+        x = f.expand(site, e)
+        lc = x if isinstance(x, (ast.ListComp, ast.GeneratorExp)) else f.as_listcomp(site, x)
+        if lc is None and is_call(x, 'list', 'tuple') and len(x.args) == 1 and isinstance(x.args[0], (ast.ListComp, ast.GeneratorExp)):
+            lc = x.args[0]
+        if lc is None or len(lc.generators) != 1 or lc.generators[0].ifs:
+            if is_call(x, 'parse_terms'):
+                R.violation(q, f'untagged:{text(part)}', f'`{text(part)} = {text(x)[:60]}`: the terms of this side are not tagged', where=f.where(f.cfg.nodes[site]))
+                continue
+            raise Unsupported(f'{q}: `{text(part)}` = `{text(x)[:70]}` is not a comprehension over parse_terms(<side>)')
+        g = lc.generators[0]
+        it = f.expand(site, g.iter)
+        if not (is_call(it, 'parse_terms') and len(it.args) == 1):
+            raise Unsupported(f'{q}: `{text(part)}` iterates `{text(it)[:50]}`')
+        side = text(it.args[0])
+        tv = text(g.target)
+        elt = lc.elt
+        tag = None
+        only_var = None
+        if isinstance(elt, ast.IfExp):
+            body, other, cond, flip = elt.body, elt.orelse, elt.test, False
+            if text(body) == tv:
+                body, other, flip = other, body, True
+            if text(other) == tv and method_call(body, '_replace') and text(body.func.value) == tv and kwarg(body, 'type') is not None:
+                tag = text(kwarg(body, 'type')).split('.')[-1]
+                from fsa.match import nnf_atoms
+                at = nnf_atoms(cond, not flip)
+                only_var = len(at) == 1 and at[0][1] is True and atoms_equal(at[0][0], expr(f'{tv}.type == Type.VARIABLE'))
+                cond_text = text(cond)
+        elif method_call(elt, '_replace') and text(elt.func.value) == tv and kwarg(elt, 'type') is not None:
+            tag = text(kwarg(elt, 'type')).split('.')[-1]
+            only_var = False
+            cond_text = '<unconditional>'
+        elif text(elt) == tv:
+            R.violation(q, f'untagged:{text(part)}', f'`{text(part)}`: the terms of `{side}` are not tagged', where=f.where(f.cfg.nodes[site]))
+            continue
+        if tag is None:
+            raise Unsupported(f'{q}: element `{text(elt)[:70]}` of `{text(part)}` is not a conditional retagging of the term')
+        sides.append((text(part), side, tag, site))
+        R.check(bool(only_var), q, f'retag-only-variable:{text(part)}', 'only VARIABLE-typed terms are retagged (parameters/errors/functions keep their type)',
+                f'`{text(part)}`: retagging is conditional on `{cond_text}`, not on `{tv}.type == Type.VARIABLE`', where=f.where(f.cfg.nodes[site]))
+    want = [(left, 'ENDOGENOUS'), (right, 'EXOGENOUS')]
+    for (nm, side, tag, site), (ws, wt) in zip(sides, want):
+        hand = 'left' if wt == 'ENDOGENOUS' else 'right'
+        if len(sides) == 2 and (side, tag) != (ws, wt) and [(s_, t_) for (_n, s_, t_, _s) in sides] == want[::-1]:
+            R.violation(q, 'return-order', 'parse_equation_terms returns the right-hand terms before the left-hand terms', where=f.where(rets[0]))
+            break
+        R.check((side, tag) == (ws, wt), q, f'tag:{hand}:{side}:{tag}', f'terms of the {hand}-hand side are tagged {wt}',
+                f'`{nm}` takes terms of `{side}` tagged {tag}, expected `{ws}` tagged {wt}', where=f.where(f.cfg.nodes[site]))
+    R.check(len(sides) == 2, q, 'both-sides', 'both sides of the statement contribute tagged terms', f'only {len(sides)} tagged side(s) found', where=f.fi.where)
 
 
 def r2_promotion(R) -> None:
@@ -182,75 +229,139 @@ def r4_double_definition(R) -> None:
                 f'`{nm}` is not resolve_strings(self.{nm}, other.{nm})', where=f.where)
 
 
-def _lag_lead_block(fi):
-    """Normalised AST text of the name-list / lags / leads computation."""
-    out = []
-    for n in fi.node.body:
-        t = None
-        if isinstance(n, ast.Assign) and len(n.targets) == 1 and text(n.targets[0]) in ('endogenous', 'exogenous', 'parameters', 'errors', 'non_indexed_symbols'):
-            t = text(n)
-        if isinstance(n, ast.If) and text(n.test) in ('lags is None', 'leads is None'):
-            t = text(n)
-        if t:
-            out.append(t)
-    return out
+FIELDS = {'endogenous': 'ENDOGENOUS', 'exogenous': 'EXOGENOUS', 'parameters': 'PARAMETER', 'errors': 'ERROR'}
+NON_INDEXED = {'FUNCTION', 'KEYWORD', 'VERBATIM'}
+
+
+def _stmt_of(fnode: ast.AST, se, node: ast.AST) -> ast.AST:
+    """Innermost statement visited by the symbolic evaluator that contains `node`."""
+    best = None
+    for s_ in ast.walk(fnode):
+        if isinstance(s_, ast.stmt) and id(s_) in se.before and any(x is node for x in ast.walk(s_)):
+            if best is None or any(x is s_ for x in ast.walk(best)):
+                best = s_
+    if best is None:
+        raise Unsupported('statement of the template call not visited by the symbolic evaluator')
+    return best
+
+
+def _template_call(fi, fields) -> ast.Call:
+    cands = [c for c in iter_own_nodes(fi.node) if method_call(c, 'format') and set(fields) <= {k.arg for k in c.keywords}]
+    if len(cands) != 1:
+        raise AnchorMissing(f'{fi.qualname}: expected one template .format(...) call with fields {sorted(fields)}, found {len(cands)}')
+    return cands[0]
+
+
+def _check_name_list(R, q, nm, ty, v, sym_param, where) -> str:
+    """`v` (canonical value) must be [s.name for s in symbols if s.type == Type.<ty>]."""
+    from fsa.match import atoms_equal, nnf_atoms
+    lc = v
+    if not (isinstance(lc, ast.ListComp) and len(lc.generators) == 1):
+        raise Unsupported(f'{q}: value of `{nm}` is `{text(v)[:70]}`, not a comprehension')
+    g = lc.generators[0]
+    tv = text(g.target)
+    conds = [(a_, tr) for c_ in g.ifs for (a_, tr) in nnf_atoms(c_, True)]
+    sel = [a_ for (a_, tr) in conds if tr and isinstance(a_, ast.Compare) and len(a_.ops) == 1 and isinstance(a_.ops[0], ast.Eq)
+           and f'{tv}.type' in (text(a_.left), text(a_.comparators[0]))]
+    ok = text(lc.elt) == f'{tv}.name' and text(g.iter) == sym_param and len(conds) == 1 and len(sel) == 1 and atoms_equal(sel[0], expr(f'{tv}.type == Type.{ty}'))
+    R.check(ok, q, f'name-list:{nm}:{text(lc)}', f'{nm} = names of symbols of type {ty}, in symbol order',
+            f'`{nm}` is `{text(lc)[:90]}`: it does not select exactly the names of Type.{ty} symbols in symbol order', where=where)
+    return text(lc)
+
+
+def _check_lag_spec(R, q, nm, agg, floor, v, sym_param, where) -> None:
+    """`v` must be  max(abs(<agg>(s.<nm> for s in NIS)) if NIS else 0, <floor>) if <nm> is None else <nm>."""
+    other = 'max' if agg == 'min' else 'min'
+    if not (isinstance(v, ast.IfExp) and text(v.test) == f'{nm} is None'):
+        if text(v) == nm:
+            R.violation(q, f'{nm}-aggregate', f'`{nm}` is never computed from the symbols (no `{nm} is None` branch)', where=where)
+            return
+        if any(isinstance(x, ast.Name) and x.id in (floor,) for x in ast.walk(v)) or any(is_call(x, 'abs', 'min', 'max') for x in ast.walk(v)):
+            R.violation(q, f'{nm}-rebound-outside:{text(v)[:60]}', f'`{nm}` is `{text(v)[:90]}` whatever was passed: an explicit {nm}= does not replace the computed value',
+                        where=where)
+            return
+        raise Unsupported(f'{q}: value of `{nm}` is `{text(v)[:70]}`')
+    R.check(text(v.orelse) == nm, q, f'{nm}-rebound-outside:{text(v.orelse)[:60]}', f'an explicit {nm}= is used as given',
+            f'an explicit `{nm}` becomes `{text(v.orelse)[:80]}`: it does not replace the computed value unchanged', where=where)
+    body = v.body
+    inner = None
+    if is_call(body, 'max') and len(body.args) == 2 and not body.keywords and any(text(a_) == floor for a_ in body.args):
+        inner = [a_ for a_ in body.args if text(a_) != floor][0]
+        R.ok(q, f'{floor} only raises the computed value')
+    else:
+        R.violation(q, f'{nm}-floor', f'`{nm}` computed from the symbols is `{text(body)[:80]}`: not max(<computed>, {floor})', where=where)
+        inner = body
+    # inner: abs(agg(...)) if NIS else 0
+    if isinstance(inner, ast.IfExp):
+        comp, zero, nis_test = inner.body, inner.orelse, inner.test
+        if isinstance(nis_test, ast.UnaryOp) and isinstance(nis_test.op, ast.Not):
+            comp, zero, nis_test = zero, comp, nis_test.operand
+        R.check(is_const(zero, 0), q, f'{nm}-zero', f'{nm.upper()} = 0 without variable-like symbols', f'fallback of `{nm}` is `{text(zero)}`, not 0', where=where)
+    else:
+        comp, nis_test = inner, None
+        R.violation(q, f'{nm}-zero', f'no `{nm} = 0` fallback for a model without variable-like symbols (`{text(inner)[:60]}`)', where=where)
+    gen = None
+    if is_call(comp, 'abs') and len(comp.args) == 1 and is_call(comp.args[0], 'min', 'max') and len(comp.args[0].args) == 1 \
+            and isinstance(comp.args[0].args[0], (ast.GeneratorExp, ast.ListComp)):
+        used = dotted(comp.args[0].func)
+        gen = comp.args[0].args[0]
+        R.check(used == agg, q, f'{nm}-aggregate:{used}', f'{nm.upper()} = |{agg} {nm}| over variable-like symbols',
+                f'`{nm}` is abs({used}(...)), expected abs({agg}(...))', where=where)
+    else:
+        if any(is_call(x, other, agg, 'abs') for x in ast.walk(comp)) or isinstance(comp, ast.Constant):
+            R.violation(q, f'{nm}-aggregate:{text(comp)[:50]}', f'`{nm}` is computed as `{text(comp)[:80]}`, not abs({agg}(s.{nm} for s in <variable-like symbols>))', where=where)
+            return
+        raise Unsupported(f'{q}: computed `{nm}` is `{text(comp)[:70]}`')
+    g = gen.generators[0]
+    tv = text(g.target)
+    R.check(text(gen.elt) == f'{tv}.{nm}' and len(gen.generators) == 1 and not g.ifs, q, f'{nm}-element:{text(gen.elt)}', f'the aggregate runs over s.{nm}',
+            f'the aggregate runs over `{text(gen.elt)}`, not `{tv}.{nm}`', where=where)
+    nis = g.iter
+    if nis_test is not None:
+        R.check(text(nis_test) == text(nis), q, f'{nm}-emptiness', 'the fallback applies exactly when there is no variable-like symbol',
+                f'the fallback is chosen by `{text(nis_test)[:60]}`, the aggregate runs over `{text(nis)[:60]}`', where=where)
+    # NIS = [s for s in symbols if s.type not in (FUNCTION, KEYWORD, VERBATIM)]
+    from fsa.match import nnf_atoms
+    if not (isinstance(nis, ast.ListComp) and len(nis.generators) == 1 and text(nis.elt) == text(nis.generators[0].target)):
+        raise Unsupported(f'{q}: the symbols `{nm}` is taken over are `{text(nis)[:70]}`')
+    ng = nis.generators[0]
+    conds = [(a_, tr) for c_ in ng.ifs for (a_, tr) in nnf_atoms(c_, True)]
+    excl = None
+    if len(conds) == 1 and isinstance(conds[0][0], ast.Compare) and isinstance(conds[0][0].ops[0], ast.In) and conds[0][1] is False \
+            and text(conds[0][0].left) == f'{text(ng.target)}.type' and isinstance(conds[0][0].comparators[0], (ast.Tuple, ast.List, ast.Set)):
+        excl = {text(e).split('.')[-1] for e in conds[0][0].comparators[0].elts}
+    if excl is None and conds:
+        # conjunction of `s.type != Type.X`
+        if all(isinstance(a_, ast.Compare) and isinstance(a_.ops[0], ast.Eq) and tr is False and text(a_.left) == f'{text(ng.target)}.type' for (a_, tr) in conds):
+            excl = {text(a_.comparators[0]).split('.')[-1] for (a_, _tr) in conds}
+    if excl is None:
+        raise Unsupported(f'{q}: filter of the variable-like symbols `{text(nis)[:80]}` not modelled')
+    R.check(text(ng.iter) == sym_param and excl == NON_INDEXED, q, f'non-indexed:{nm}:{sorted(excl)}', 'lags/leads are taken over everything except functions, keywords, verbatim',
+            f'`{nm}` is taken over symbols excluding {sorted(excl)} (of `{text(ng.iter)}`), expected all of `{sym_param}` except {sorted(NON_INDEXED)}', where=where)
 
 
 def r5_definition(R) -> None:
+    from fsa.gated import SymExec, canon
     q = f'{P}.build_model_definition'
     f = Fn(R, q)
-    want = {'endogenous': 'ENDOGENOUS', 'exogenous': 'EXOGENOUS', 'parameters': 'PARAMETER', 'errors': 'ERROR'}
-    for nm, ty in want.items():
-        ds = [n for n in f.assigns_to(nm) if isinstance(n.ast.value, ast.ListComp)]
-        if not R.require(q, len(ds), f'{nm} = [s.name for s in symbols if s.type == Type.{ty}]', fi=f.fi, pred=lambda x: isinstance(x, ast.ListComp)):
-            continue
-        lc = ds[0].ast.value
-        g = lc.generators[0]
-        ok = text(lc.elt) == f'{text(g.target)}.name' and text(g.iter) == 'symbols' and len(g.ifs) == 1 \
-            and text(g.ifs[0]) in (f'{text(g.target)}.type == Type.{ty}', f'Type.{ty} == {text(g.target)}.type')
-        R.check(ok, q, f'name-list:{nm}:{text(lc)}', f'{nm} = names of symbols of type {ty}, in symbol order',
-                f'`{nm} = {text(lc)}` does not select Type.{ty}', where=f.where(ds[0]))
-    # lags / leads
+    sym_param = (f.fi.params() + ['symbols'])[0]
+    se = SymExec(f.fi.node)
+    call = _template_call(f.fi, list(FIELDS) + ['lags', 'leads', 'equations'])
+    st = _stmt_of(f.fi.node, se, call)
+    where = f'{f.fi.module.relpath}:{call.lineno}'
+    vals = {k.arg: canon(se.value(st, k.value)) for k in call.keywords if k.arg}
+    py_forms = {}
+    for nm, ty in FIELDS.items():
+        py_forms[nm] = _check_name_list(R, q, nm, ty, vals[nm], sym_param, where)
     for nm, agg, floor in (('lags', 'min', 'min_lags'), ('leads', 'max', 'min_leads')):
-        tests = [t for t in f.tests() if text(t.ast) == f'{nm} is None']
-        if not R.require(q, len(tests), f'`if {nm} is None` block', fi=f.fi, pred=lambda x: isinstance(x, ast.Compare)):
-            continue
-        t = tests[0]
-        defs = f.assigns_to(nm)
-        inside = [d for d in defs if (t.id, 'T') in f.guards_of(d.id)]
-        outside = [d for d in defs if (t.id, 'T') not in f.guards_of(d.id)]
-        for d in outside:
-            R.violation(q, f'{nm}-rebound-outside:{text(d.ast)}', f'`{text(d.ast)}` rebinds `{nm}` outside the `is None` branch: an explicit {nm}= would not replace the computed value',
-                        where=f.where(d))
-        got_abs = got_zero = got_floor = False
-        for d in inside:
-            v = d.ast.value
-            if is_call(v, 'abs') and is_call(v.args[0], agg) and isinstance(v.args[0].args[0], ast.GeneratorExp):
-                ge = v.args[0].args[0]
-                if text(ge.elt) == f'{text(ge.generators[0].target)}.{nm}' and text(ge.generators[0].iter) == 'non_indexed_symbols':
-                    got_abs = True
-            elif is_call(v, 'abs') or is_call(v, 'min') or (is_call(v, 'max') and floor not in text(v)):
-                R.violation(q, f'{nm}-aggregate:{text(v)}', f'`{nm} = {text(v)}` is not abs({agg}(s.{nm} for s in non_indexed_symbols))', where=f.where(d))
-            if is_const(v, 0):
-                got_zero = True
-            if is_call(v, 'max') and sorted(text(a) for a in v.args) == sorted([nm, floor]):
-                got_floor = True
-                # the floor comes after the aggregate
-                ok = all(x.id in f.dom[d.id] or True for x in inside)
-        R.check(got_abs, q, f'{nm}-aggregate', f'{nm.upper()} = |{agg} {nm}| over variable-like symbols', f'no `{nm} = abs({agg}(...))` in the `is None` branch', where=f.where(t))
-        R.check(got_zero, q, f'{nm}-zero', f'{nm.upper()} = 0 without variable-like symbols', f'no `{nm} = 0` fallback', where=f.where(t))
-        R.check(got_floor, q, f'{nm}-floor', f'{floor} only raises the computed value', f'no `{nm} = max({nm}, {floor})` inside the `is None` branch', where=f.where(t))
-    ni = [n for n in f.assigns_to('non_indexed_symbols')]
-    if ni:
-        lc = ni[0].ast.value
-        ok = isinstance(lc, ast.ListComp) and text(lc.generators[0].iter) == 'symbols' and len(lc.generators[0].ifs) == 1
-        excl = set()
-        if ok:
-            c = lc.generators[0].ifs[0]
-            if isinstance(c, ast.Compare) and isinstance(c.ops[0], ast.NotIn):
-                excl = {text(e).split('.')[-1] for e in c.comparators[0].elts}
-        R.check(ok and excl == {'FUNCTION', 'KEYWORD', 'VERBATIM'}, q, f'non-indexed:{sorted(excl)}', 'lags/leads are taken over everything except functions, keywords, verbatim',
-                f'non_indexed_symbols excludes {sorted(excl)}', where=f.where(ni[0]))
+        _check_lag_spec(R, q, nm, agg, floor, vals[nm], sym_param, where)
+        py_forms[nm] = text(vals[nm])
+    # the template receiving them is one of the two model templates
+    recv = canon(se.value(st, call.func.value))
+    tnames = {x.id for x in ast.walk(recv) if isinstance(x, ast.Name)}
+    R.check({'MODEL_TEMPLATE_TYPED', 'MODEL_TEMPLATE_UNTYPED'} & tnames and tnames <= {'MODEL_TEMPLATE_TYPED', 'MODEL_TEMPLATE_UNTYPED', 'with_type_hints'}, q,
+            'template:' + text(recv)[:60], 'the fields are formatted into MODEL_TEMPLATE_TYPED / MODEL_TEMPLATE_UNTYPED',
+            f'the fields are formatted into `{text(recv)[:80]}`', where=where)
     # NAMES order in both templates
     fd = folder(R.repo, P)
     for tn in ('MODEL_TEMPLATE_TYPED', 'MODEL_TEMPLATE_UNTYPED'):
@@ -279,19 +390,40 @@ def r5_definition(R) -> None:
             got = mvals.get(attr)
             R.check(got == repr('@' + field + '@'), f'{P}.{tn}', f'field:{attr}:{got}', f'{attr} is filled from {{{field}}}',
                     f'{tn}: {attr} is `{got}`, expected the {{{field}}} field')
-    # format call passes each field from the variable of the same name
-    fm = [n for n in f.cfg.nodes if n.kind == 'stmt' and isinstance(n.ast, ast.Assign) and method_call(n.ast.value, 'format') and 'model_template' in text(n.ast.value.func)]
-    if R.require(q, len(fm), 'model_template.format(...)', fi=f.fi, pred=lambda x: method_call(x, 'format')):
-        c = fm[0].ast.value
-        for k in c.keywords:
-            R.check(isinstance(k.value, ast.Name) and k.value.id == k.arg, q, f'format-field:{k.arg}={text(k.value)}', f'field {k.arg} receives `{k.arg}`',
-                    f'template field `{k.arg}` receives `{text(k.value)}`', where=f.where(fm[0]))
-    # Fortran twin
-    ft = R.repo.func('fsic.fortran.build_fortran_definition')
-    a, b = _lag_lead_block(f.fi), _lag_lead_block(ft)
-    R.check(a == b and len(a) >= 7, 'fsic.fortran.build_fortran_definition', 'twin-block', 'name lists and lag/lead computation agree with build_model_definition',
-            'build_fortran_definition computes name lists / lags / leads differently from build_model_definition: '
-            + '; '.join(x for x in b if x not in a)[:200], where=ft.where)
+    # Fortran twin: the same name lists (in the same order) and the same lag/lead lengths
+    ft = Fn(R, 'fsic.fortran.build_fortran_definition')
+    fq = ft.q
+    fse = SymExec(ft.fi.node)
+    fsym = (ft.fi.params() + ['symbols'])[0]
+    fcall = _template_call(ft.fi, list(FIELDS) + ['lags', 'leads', 'equations'])
+    fst = _stmt_of(ft.fi.node, fse, fcall)
+    fwhere = f'{ft.fi.module.relpath}:{fcall.lineno}'
+    fvals = {k.arg: fse.value(fst, k.value) for k in fcall.keywords if k.arg}
+    diffs = []
+    for nm in ('lags', 'leads'):
+        got = text(canon(fvals[nm])).replace(fsym, sym_param) if fsym != sym_param else text(canon(fvals[nm]))
+        if got != py_forms[nm]:
+            diffs.append(f'{nm}: `{got[:120]}`')
+    # name lists: first argument of the per-field definition helper, and the numbering order
+    for nm, ty in FIELDS.items():
+        v = fvals[nm]
+        lists = [x for x in ast.walk(v) if isinstance(x, ast.ListComp) and text(x.elt).endswith('.name')]
+        if not lists:
+            raise Unsupported(f'{fq}: field `{nm}` = `{text(v)[:70]}` does not mention a list of symbol names')
+        forms = {text(canon(x)) for x in lists}
+        want = py_forms[nm].replace(sym_param, fsym) if fsym != sym_param else py_forms[nm]
+        if forms != {want}:
+            diffs.append(f'{nm}: `{sorted(forms)[0][:120]}`')
+    R.check(not diffs, fq, 'twin-block', 'name lists and lag/lead computation agree with build_model_definition',
+            'build_fortran_definition computes name lists / lags / leads differently from build_model_definition: ' + '; '.join(diffs)[:300], where=fwhere)
+    # numbering: variables are numbered endogenous, exogenous, parameters, errors (the order of NAMES)
+    chains = [x for x in ast.walk(ft.fi.node) if is_call(x, 'itertools.chain', 'chain') and len(x.args) == 4]
+    if chains:
+        cst = _stmt_of(ft.fi.node, fse, chains[0])
+        got = [text(canon(fse.value(cst, a_))) for a_ in chains[0].args]
+        want = [py_forms[nm].replace(sym_param, fsym) if fsym != sym_param else py_forms[nm] for nm in FIELDS]
+        R.check(got == want, fq, 'twin-numbering', 'Fortran variable numbers follow ENDOGENOUS + EXOGENOUS + PARAMETERS + ERRORS',
+                f'variables are numbered over `{[g_[:40] for g_ in got]}`', where=f'{ft.fi.module.relpath}:{chains[0].lineno}')
 
 
 def r6_first_appearance(R) -> None:
